@@ -949,6 +949,17 @@ public:
         callback_keys.push_back(unique_key);
       }
 
+      // If the backend refuses the registration (for example because it has no
+      // free entry point), the function must not stay recorded as registered
+      auto key_rollback = detail::make_scope_exit([&] {
+        std::lock_guard<std::mutex> lock(callback_lock);
+        auto el_ref =
+          std::find(callback_keys.begin(), callback_keys.end(), unique_key);
+        if (el_ref != callback_keys.end()) {
+          callback_keys.erase(el_ref);
+        }
+      });
+
       auto callback_interceptor =
         sandbox_callback_interceptor<detail::rlbox_remove_wrapper_t<T_Ret>,
                                      detail::rlbox_remove_wrapper_t<T_Args>...>;
@@ -960,6 +971,8 @@ public:
         detail::convert_to_sandbox_equivalent_t<
           detail::rlbox_remove_wrapper_t<T_Args>,
           T_Sbx>...>(unique_key, reinterpret_cast<void*>(callback_interceptor));
+
+      key_rollback.release();
 
       auto tainted_func_ptr = reinterpret_cast<
         detail::rlbox_tainted_opaque_to_tainted_t<T_Ret, T_Sbx> (*)(
